@@ -8,6 +8,13 @@ def hook_commits():
     return [l.split()[0] for l in out.splitlines() if "verif hook" in l]
 
 CLAIMED = {
+ "C09": dict(
+   level="exploration",
+   text="(A) seeded sweep of structurally valid values over 14 format families (all slip / transaction types, 0..255 slips, empty to multi-KiB payloads, 0-5 hops, extreme integers, every message tag, handshake, ghost chain, key lists, services, wallet file, version, Full/Header blocks): predicted size, decode, field equality, byte-identical re-encoding, unchanged hash and signature verdict; every message form is also delivered to a live node. (B) seam monitor on a real producer + observer network: every delivered message re-encodes to itself; every block file the observer writes decodes, generates, re-encodes identically, carries the hash of its file name and equals the producer's bytes; tip and stored hashes survive a crash-free restart.",
+   design="§6 C09, §7",
+   note="Reduced scope (DESIGN §7): the quantifier over all structurally valid values is sampled by a seeded generator; the simulation-decided half is identity preservation across the real send/receive, disk and restart seams.",
+   technique="deterministic simulation: round-trip / identity monitor at the simulated wire and disk seams + seeded value sweep"),
+
  "C18": dict(
    level="exploration",
    text="One block with n ordered zero-fee payments of which a chosen subset pays the light client's key: every (n, pattern) for n = 0..6/8 enumerated first, then random n <= 24/40 with 0-2 extra listed keys. The lite block is produced by the same core calls as the fetch route and checked before and after the wire: id, hash, signature and every header field equal the full block's; every transaction touching a listed key is carried unmodified; hash unchanged by the wire; merkle root recomputable from the lite block's own transactions. In a fraction of the runs a real SPV node performs handshake, ghost-chain request and lite-block fetch against a real full node and must end up storing the block under the advertised hash.",
